@@ -305,6 +305,12 @@ def part_a_case(ctx, seed):
     from playback.exceptions import RecordingKeyError
     rng = random.Random(seed)
     prog = callset_program(rng, seed)
+    # (own stream) the first input names the second one's alias as a fallback alias: a call recorded under BOTH aliases with the same
+    # captured arguments must still be answered with what was recorded for its own alias
+    fb = random.Random(seed * 11 + 5)
+    if all('{p}' not in d['alias'] for d in prog['inputs']) and prog['inputs'][0]['alias'] != prog['inputs'][1]['alias'] and fb.random() < 0.5:
+        prog['inputs'][0]['fallback'] = [prog['inputs'][1]['alias']]
+        ctx.count('callsets_with_the_other_alias_as_fallback')
     p2, kinds = variant_program(prog, rng)
     desc = describe(prog)
     w = {'case_seed': seed, 'program': desc}
@@ -361,6 +367,13 @@ def part_a_case(ctx, seed):
                                           recorded_call=rec_args.get(ident))
                     else:
                         ctx.violation('a call equivalent to a recorded one received another value', dict(w, decl=d['name'], got=repr(got)[:200], expected=repr(present[ident])[:200]))
+            elif d.get('fallback') == [rep.decls['in1']['alias']] and d['name'] == 'in0' and \
+                    rep.key_identity(rep.decls['in1'], e['args'], e['kwargs']) in present:
+                # never recorded under its own alias, recorded under the fallback alias: the documented policy answers with that
+                ctx.count('probe_calls_answered_through_the_fallback_alias')
+                if not outcome_teq(got, present[rep.key_identity(rep.decls['in1'], e['args'], e['kwargs'])]):
+                    ctx.violation('a call recorded under its fallback alias only was not answered with that recorded value',
+                                  dict(w, decl=d['name'], got=repr(got)[:200]))
             else:
                 ctx.count('inequivalent_probe_calls')
                 if not (got.kind == 'exc' and isinstance(got.value, RecordingKeyError)):
